@@ -139,3 +139,28 @@ async fn c20_reconnect_retry_not_ready() {
     assert!(out.is_ok());
     assert!(v.load(Ordering::SeqCst) >= 1, "finding no longer reproduces: the retry went to an instance observed ready");
 }
+
+/// C12: all-attempts-failed is reported as soon as ONE error arrives after the last hedge was started, although other
+/// started attempts are still running and would succeed.
+#[tokio::test]
+async fn c12_all_failed_reported_while_attempts_still_running() {
+    use tower_resilience_hedge::HedgeLayer;
+    let n = Arc::new(AtomicUsize::new(0));
+    let n2 = Arc::clone(&n);
+    // attempt 0 (primary): succeeds after 200 ms; attempt 1: fails after 60 ms; attempt 2: succeeds after 300 ms
+    let svc = tower::service_fn(move |_: ()| {
+        let k = n2.fetch_add(1, Ordering::SeqCst);
+        async move {
+            match k {
+                0 => { tokio::time::sleep(Duration::from_millis(200)).await; Ok::<&'static str, String>("primary") }
+                1 => { tokio::time::sleep(Duration::from_millis(60)).await; Err("hedge 1 failed".to_string()) }
+                _ => { tokio::time::sleep(Duration::from_millis(300)).await; Ok("hedge 2") }
+            }
+        }
+    });
+    let layer = HedgeLayer::builder().max_hedged_attempts(3).delay(Duration::from_millis(10)).build();
+    let mut h = layer.layer(svc);
+    let out = h.ready().await.unwrap().call(()).await;
+    // property: fails only when every started attempt has failed -> Ok("primary") at 200 ms. Real code (before the fix): AllAttemptsFailed at ~70 ms.
+    assert!(out.is_err(), "finding no longer reproduces: {out:?}");
+}
